@@ -360,7 +360,7 @@ func (w *World) opPairs(tk *TKAI, res *flowResult, opv ssa.Value, al *ssa.Alloc)
 
 func ruleC07R1(w *World, r *Report) {
 	const rule = "C07/R1"
-	r.rule(rule, "the level structure extracted from the parser (first-operand chain from parseExpr; per level: token sequences -> operator constants, associativity, operand parsers, other node types) equals the GoogleSQL precedence table", 12)
+	r.rule(rule, "the level structure extracted from the parser (first-operand chain from parseExpr; per level: token sequences -> operator constants, associativity, operand parsers, other node types) equals the GoogleSQL precedence table", 6)
 	levels := w.extractLevels(r)
 	if len(levels) == 0 {
 		return
@@ -609,7 +609,7 @@ func (ps *precSem) wraps(level int64, typ, opName string) (bool, string) {
 
 func ruleC07R2(w *World, r *Report) {
 	const rule = "C07/R2"
-	r.rule(rule, "the printer's table is order-isomorphic to the parser's levels: for every two operators/node types x, y of the expression grammar, paren(exprPrec(y), x) — both functions followed by interpretation, whatever their shape — adds parentheses exactly when x binds looser than y in the parser", 20)
+	r.rule(rule, "the printer's table is order-isomorphic to the parser's levels: for every two operators/node types x, y of the expression grammar, paren(exprPrec(y), x) — both functions followed by interpretation, whatever their shape — adds parentheses exactly when x binds looser than y in the parser", 10)
 	ps, err := w.readExprPrec()
 	if ps == nil {
 		r.errorf("%s", err)
@@ -763,7 +763,7 @@ func onlyAllocs(v ssa.Value, seen map[ssa.Value]bool) bool {
 // value: paren() then never wraps it, and exprPrec never reaches its fall-through.
 func ruleC07R4(w *World, r *Report) {
 	const rule = "C07/R4"
-	r.rule(rule, "every struct type implementing ast.Expr (except the Bad* placeholders) has its own entry in exprPrec (followed by interpretation: it returns, it does not reach the fall-through); the types that no precedence level of the parser produces (atoms) are never put in parentheses by paren() under any operator of the grammar", 40)
+	r.rule(rule, "every struct type implementing ast.Expr (except the Bad* placeholders) has its own entry in exprPrec (followed by interpretation: it returns, it does not reach the fall-through); the types that no precedence level of the parser produces (atoms) are never put in parentheses by paren() under any operator of the grammar", 20)
 	ps, err := w.readExprPrec()
 	if ps == nil {
 		r.errorf("%s", err)
